@@ -91,6 +91,7 @@ mechanisms:
         jwt_source:
           - header: X-Jwt
           - query_parameter: jwt_q
+          - body_parameter: jwt_b
         assertions:
           issuers: [ "iss1" ]
         cache_ttl: 0s
@@ -102,6 +103,7 @@ mechanisms:
         jwt_source:
           - header: X-Jwt
           - query_parameter: jwt_q
+          - body_parameter: jwt_b
         assertions:
           issuers: [ "iss1" ]
         cache_ttl: 0s
@@ -114,6 +116,7 @@ mechanisms:
         token_source:
           - header: x-token # spelled as yaml authors do; header names are case-insensitive
           - query_parameter: tok_q
+          - body_parameter: tok_b
         assertions:
           issuers: [ "iss1" ]
         cache_ttl: 0s
@@ -125,6 +128,7 @@ mechanisms:
         token_source:
           - header: x-token # spelled as yaml authors do; header names are case-insensitive
           - query_parameter: tok_q
+          - body_parameter: tok_b
         assertions:
           issuers: [ "iss1" ]
         cache_ttl: 0s
@@ -274,7 +278,7 @@ type ehSpec struct {
 	cond int
 }
 
-var conds = []string{"", `Request.Method == "GET"`, `Request.Method == "PATCH"`, `Request.URL.Path.size() / (Request.URL.Path.size() - Request.URL.Path.size()) == 1`}
+var conds = []string{"", `Request.Method != "PATCH"`, `Request.Method == "PATCH"`, `Request.URL.Path.size() / (Request.URL.Path.size() - Request.URL.Path.size()) == 1`}
 
 type pipeline struct {
 	authn    []authnSpec
@@ -403,6 +407,8 @@ type worlds struct {
 	// request line / body of the next send (robust-sim only); the zero values mean "GET" without body
 	reqMethod string
 	reqBody   []byte
+	// Envoy passes the buffered request body in the string attribute unless pack_as_bytes is set
+	envoyBodyAsString bool
 	// variants[0]: terse error responses, logging off (robust-sim: debug); variants[1]: verbose error responses and a
 	// trace level logger, so that code only executed for verbose answers or at trace level is part of what is decided
 	variants []worldVariant
@@ -536,7 +542,7 @@ func getWorlds() (*worlds, error) {
 
 type creds struct {
 	basic, jwt, token, sess int // 0 none, 1 valid, 2 invalid (rejected by content), 3 malformed (not classified by the property)
-	jwtVia, tokVia         int // 0 header, 1 query parameter, 2 query parameter with a percent-encoded name
+	jwtVia, tokVia         int // 0 header, 1 query parameter, 2 query parameter with a percent-encoded name, 3 parameter of a form body
 	tokShape               int // rejected tokens: 0 opaque, 1 JWT of a foreign issuer, 2 JWT naming the trusted issuer
 	accept                 int // index into acceptValues
 }
@@ -547,10 +553,10 @@ var acceptValues = []string{"", "application/json", "image/png", "foo", "text/ht
 func (c creds) query() string {
 	var parts []string
 	h := c.allHeaders()
-	if c.jwt != 0 && c.jwtVia != 0 {
+	if c.jwt != 0 && (c.jwtVia == 1 || c.jwtVia == 2) {
 		parts = append(parts, []string{"jwt_q", "%6Awt_q"}[c.jwtVia-1]+"="+url.QueryEscape(h["X-Jwt"]))
 	}
-	if c.token != 0 && c.tokVia != 0 {
+	if c.token != 0 && (c.tokVia == 1 || c.tokVia == 2) {
 		parts = append(parts, []string{"tok_q", "tok%5Fq"}[c.tokVia-1]+"="+url.QueryEscape(h["X-Token"]))
 	}
 	if len(parts) == 0 {
@@ -559,8 +565,24 @@ func (c creds) query() string {
 	return "?" + strings.Join(parts, "&")
 }
 
+// body returns the form body carrying those credentials which travel there ("" = no body).
+func (c creds) body() string {
+	var parts []string
+	h := c.allHeaders()
+	if c.jwt != 0 && c.jwtVia == 3 {
+		parts = append(parts, "jwt_b="+url.QueryEscape(h["X-Jwt"]))
+	}
+	if c.token != 0 && c.tokVia == 3 {
+		parts = append(parts, "tok_b="+url.QueryEscape(h["X-Token"]))
+	}
+	return strings.Join(parts, "&")
+}
+
 func (c creds) headers() map[string]string {
 	h := c.allHeaders()
+	if c.body() != "" {
+		h["Content-Type"] = "application/x-www-form-urlencoded"
+	}
 	if c.jwtVia != 0 {
 		delete(h, "X-Jwt")
 	}
@@ -798,7 +820,7 @@ func (w *worlds) send(entry, path string, hdr map[string]string) (ans answer, pa
 		ctx, cancel := context.WithTimeout(context.Background(), 20*time.Second)
 		defer cancel()
 		resp, err := w.envoy.Check(ctx, &envoy_auth.CheckRequest{Attributes: &envoy_auth.AttributeContext{Request: &envoy_auth.AttributeContext_Request{
-			Http: &envoy_auth.AttributeContext_HttpRequest{Method: map[bool]string{true: "GET", false: w.reqMethod}[w.reqMethod == ""], Scheme: "http", Host: "svc.local", Path: path, Headers: lower(hdr), RawBody: w.reqBody},
+			Http: &envoy_auth.AttributeContext_HttpRequest{Method: map[bool]string{true: "GET", false: w.reqMethod}[w.reqMethod == ""], Scheme: "http", Host: "svc.local", Path: path, Headers: lower(hdr), RawBody: map[bool][]byte{false: w.reqBody}[w.envoyBodyAsString], Body: map[bool]string{true: string(w.reqBody)}[w.envoyBodyAsString]},
 		}}})
 		if err != nil {
 			ans.status = "grpc-error: " + err.Error()
@@ -901,10 +923,10 @@ func pipeSim(r *simcore.Run) {
 			c.sess = 0
 		}
 		if c.jwt == 1 || c.jwt == 2 {
-			c.jwtVia = []int{0, 0, 1, 2}[s.Draw(4, "jwt-via")]
+			c.jwtVia = []int{0, 0, 1, 2, 3}[s.Draw(5, "jwt-via")]
 		}
 		if c.token == 1 || c.token == 2 {
-			c.tokVia = []int{0, 0, 1, 2}[s.Draw(4, "token-via")]
+			c.tokVia = []int{0, 0, 1, 2, 3}[s.Draw(5, "token-via")]
 		}
 		if c.token == 2 {
 			c.tokShape = s.Draw(3, "token-shape")
@@ -942,7 +964,13 @@ func pipeSim(r *simcore.Run) {
 			return f
 		}
 		before := len(w.net.Calls(""))
+		w.reqMethod, w.reqBody, w.envoyBodyAsString = "", nil, false
+		if b := c.body(); b != "" {
+			// the rule matches every method; Envoy hands the body over as string (its default) or as bytes (pack_as_bytes)
+			w.reqMethod, w.reqBody, w.envoyBodyAsString = "POST", []byte(b), s.Draw(2, "envoy-body-as-string") == 1
+		}
 		ans, panicked := w.send(entry, path, c.headers())
+		w.reqMethod, w.reqBody, w.envoyBodyAsString = "", nil, false
 		w.net.Plan = nil
 		called := map[string]int{}
 		var callOrder []string
